@@ -7,21 +7,11 @@ package upload
 import (
 	"errors"
 
-	"golang.org/x/telemetry/internal/telemetry"
 	"golang.org/x/telemetry/internal/vrt"
 	"golang.org/x/telemetry/internal/vrt/vhttp"
+	"golang.org/x/telemetry/internal/vrt/vconfigstore"
 	"golang.org/x/telemetry/internal/vrt/vos"
 )
-
-// vuDownload stands in for configstore.Download (which runs `go mod download`).
-var vuDownloadFails bool
-
-func vuDownload(version string, env []string) (*telemetry.UploadConfig, string, error) {
-	if vuDownloadFails {
-		return nil, "", errors.New("download failed")
-	}
-	return &telemetry.UploadConfig{}, "v1.2.3", nil
-}
 
 var c5uerrs = []error{vos.ErrNotExist, vos.ErrExist, vos.ErrPermission, vos.ErrInjected}
 
@@ -41,7 +31,7 @@ func VC05_upload() {
 	} else {
 		mode = "local"
 	}
-	vuDownloadFails = (mode == "on" || mode == "on 2000-01-01") && vrt.Bool()
+	vconfigstore.Fails = (mode == "on" || mode == "on 2000-01-01") && vrt.Bool()
 	// odd directory contents
 	pool := []string{"a.json", ".json", "x.v1.count", week + ".json.lock", "local." + week + ".json", week + ".json", ".v1.count", "noise"}
 	vos.AddFile(vuDir+"/local/"+week+".json", []byte("{}")) // a ready report, so that the upload path runs
